@@ -7,7 +7,7 @@ HERE = os.path.dirname(os.path.dirname(os.path.abspath(__file__)))
 def parse(files):
     rows = {}
     for f in files:
-        for l in open(f):
+        for l in open(f, errors="replace"):
             m = re.match(r'(\S+) (C\d+) exit=(\d+) :: ?(.*)', l.strip())
             if not m:
                 continue
